@@ -237,3 +237,10 @@ PROPS["C19"]["explanation"] = ("terminals (only tokens below the node, strictly 
                                "exactly once, the argument first / last, ancestors before / after their descendants. levels and the export "
                                "numbering are bounded only; the ghost theory of well-formed trees is validated on enumerated trees.")
 PROPS["C19"]["level_text"] = "proof for terminals/children/preorder/postorder/siblings/dominance/lca, bounded stand-in for levels and numbering; 'other'"
+
+PROPS["C10"]["assumptions"] = PROPS["C10"]["assumptions"] + [
+    "gap system: the replay automaton puts the deque back onto the stack top-first (the convention of transitions.gap "
+    "and of the repository's own golden test TRANS_DISCONT_GAP_TRANSITIONS); this is the reverse of the order in Coavoux "
+    "& Crabbe (2017). Under the published order the emitted sequences do not rebuild trees in which two or more items are "
+    "gapped at once (e.g. (VROOT (NP (VP 1 4) 2) 3), and the repository's sample sentence): 'the corresponding automaton' "
+    "of the property is read as the one the generator is written for (DESIGN 12)"]
